@@ -14,13 +14,17 @@ spec -> code: Incremental_Export enumerates every stream of length <= N over
 code -> spec: seeded random longer streams over a larger alphabet with random nested group files; random
               collapsed_restrict_to_data configurations pulled for three packages.
 All observations are judged by Incremental_Trace; clauses Plain_set, Plain_rejection, Condensed_rejection,
-Condensed_foreign, Condensed_expand, License_set, License_rejection, Groups_flat, Pull_set, Pull_rejection.
+Condensed_foreign, Condensed_expand, License_set, License_rejection, Groups_flat, Pull_set, Pull_rejection, and for
+the un-finalized form (incremental_expansion(finalize=False) and the .defaults collapsed_restrict_to_data stores with
+finalize_defaults=False) Unfinalized_/Stored_ rejection, foreign, ambiguous (a body in both polarities), expand.
 
 Carve-outs (inputs outside the property's domain, never generated):
   * empty-string tokens (str.split never yields them); group files with a member-less group line (the
     file parser rejects the whole file); cyclic group references (the property says nested and missing);
   * collapsed_restrict_to_data: global tokens are given first and entries are atoms (entries of one
     specificity class keep their order; pre_defaults is not used with this class anywhere in pkgcore);
+  * the un-finalized form is not judged for streams holding a positive literal "*" (the mode is for USE-like
+    streams); a stored set holding -* is read clear-first (CondApply), not in hash order;
   * the condensed form is judged by its meaning ("clear/remove, then add" on top of ANY earlier set,
     as split_negations/add_bare_global and `x in features` read it), not by its spelling.
 """
@@ -97,6 +101,9 @@ class World:
         ev = dict(ev="expand", toks=case["toks"], init=case["init"], defs=case["defs"], all=case["all"])
         ev["plain"] = self._obs(lambda: m.incremental_expansion(iter(texts), orig=set(case["init"])))
         ev["cond"] = self._obs(lambda: set(m.optimize_incrementals(list(texts))))
+        ev["unfin"] = self._obs(lambda: m.incremental_expansion(iter(texts), finalize=False))
+        ev["stored"] = self._obs(lambda: m.collapsed_restrict_to_data(
+            ((self.packages.AlwaysTrue, tuple(texts)),), finalize_defaults=False).defaults)
         ev["lic"] = self._obs(lambda: m.incremental_expansion_license("cat/pkg-1", tuple(case["all"]), groups, iter(texts)))
         return ev
 
@@ -242,7 +249,8 @@ def run(ck):
             case = cases[owner[v["tid"]]]
             detail = dict(case=case, kind=e["ev"])
             if e["ev"] == "expand":
-                detail.update(texts=[text(t) for t in e["toks"]], plain=e["plain"], cond=e["cond"], lic=e["lic"])
+                detail.update(texts=[text(t) for t in e["toks"]], plain=e["plain"], cond=e["cond"], lic=e["lic"],
+                              unfin=e["unfin"], stored=e["stored"])
             elif e["ev"] == "pull":
                 detail.update(pkg=e["pkg"], res=e["res"])
             else:
